@@ -214,6 +214,7 @@ pub struct RelL {
     /// in-place / r_addend value
     pub addend: u64,
     /// width of the relocated word in bytes
+    #[allow(dead_code)]
     pub width: u64,
 }
 
@@ -239,6 +240,7 @@ pub struct Built {
     pub rel: Vec<RelL>,
     pub entry: u64,
     pub phdrs: Vec<PhL>,
+    #[allow(dead_code)]
     pub addr_bits: u32,
     pub got: Option<GotL>,
 }
@@ -930,7 +932,7 @@ pub fn build(img: &Image) -> Option<Built> {
                 Ck::RelPlt => blit(c.off, &emit_rels(&plt)),
                 Ck::Dynamic => {
                     let mut b = Vec::new();
-                    let mut tag = |b: &mut Vec<u8>, t: u64, v: u64| {
+                    let tag = |b: &mut Vec<u8>, t: u64, v: u64| {
                         enc.word(b, t);
                         enc.word(b, v);
                     };
